@@ -2121,7 +2121,7 @@ namespace gch
         GCH_TRY
         {
           // Note: Not != because `using namespace std::rel_ops` can break constexpr.
-          for (; ! (first == last); ++first, static_cast<void> (++d_last))
+          for (; ! (first == last); ++d_last, static_cast<void> (++first))
             construct (d_last, *first);
           return d_last;
         }
